@@ -22,6 +22,9 @@ use radix_common::prelude::*;
 use radix_engine_interface::prelude::*;
 use radix_engine_interface::blueprints::access_controller::*;
 use radix_engine_interface::blueprints::account::*;
+use radix_engine_interface::blueprints::component::*;
+use radix_engine_interface::blueprints::locker::*;
+use radix_engine_interface::blueprints::pool::*;
 use radix_engine_interface::blueprints::consensus_manager::*;
 use radix_engine_interface::blueprints::identity::*;
 use radix_engine_interface::blueprints::package::*;
@@ -289,6 +292,13 @@ fn jobs() -> Vec<(String, Job)> {
         Decimal, PreciseDecimal, NonFungibleLocalId, NonFungibleGlobalId, ResourceAddress, GlobalAddress, InternalAddress, PublicKey, Hash, Epoch, Instant,
         MetadataValue, OwnerRole, RoleAssignmentInit, ModuleConfig<MetadataInit>, FungibleResourceRoles, NonFungibleResourceRoles,
         AccountTryDepositOrAbortManifestInput, AccessControllerCreateManifestInput, NonFungibleResourceManagerCreateManifestInput, PackagePublishWasmAdvancedManifestInput, ValidatorStakeManifestInput,
+    );
+    // ---- typed-global wrappers (schema validation IsGlobalTyped) over every address flavour
+    scrypto_types!(v;
+        Global<AccountMarker>, GenericGlobal<GlobalAddress, AccountMarker>, Global<IdentityMarker>, GenericGlobal<GlobalAddress, IdentityMarker>, Global<AccessControllerMarker>, GenericGlobal<GlobalAddress, AccessControllerMarker>, Global<OneResourcePoolMarker>, GenericGlobal<GlobalAddress, OneResourcePoolMarker>, Global<TwoResourcePoolMarker>, GenericGlobal<GlobalAddress, TwoResourcePoolMarker>, Global<MultiResourcePoolMarker>, GenericGlobal<GlobalAddress, MultiResourcePoolMarker>, Global<ConsensusManagerMarker>, GenericGlobal<GlobalAddress, ConsensusManagerMarker>, Global<ValidatorMarker>, GenericGlobal<GlobalAddress, ValidatorMarker>, Global<AccountLockerMarker>, GenericGlobal<GlobalAddress, AccountLockerMarker>, GenericGlobal<ResourceAddress, AccountMarker>, GenericGlobal<PackageAddress, AccountMarker>, GenericGlobal<ResourceAddress, ValidatorMarker>, GenericGlobal<PackageAddress, OneResourcePoolMarker>, Option<GenericGlobal<ResourceAddress, AccountLockerMarker>>, Vec<GenericGlobal<GlobalAddress, AccountMarker>>,
+    );
+    manifest_types!(v;
+        GenericGlobal<ManifestComponentAddress, AccountMarker>, GenericGlobal<GlobalAddress, AccountMarker>, GenericGlobal<ManifestComponentAddress, IdentityMarker>, GenericGlobal<GlobalAddress, IdentityMarker>, GenericGlobal<ManifestComponentAddress, AccessControllerMarker>, GenericGlobal<GlobalAddress, AccessControllerMarker>, GenericGlobal<ManifestComponentAddress, OneResourcePoolMarker>, GenericGlobal<GlobalAddress, OneResourcePoolMarker>, GenericGlobal<ManifestComponentAddress, TwoResourcePoolMarker>, GenericGlobal<GlobalAddress, TwoResourcePoolMarker>, GenericGlobal<ManifestComponentAddress, MultiResourcePoolMarker>, GenericGlobal<GlobalAddress, MultiResourcePoolMarker>, GenericGlobal<ManifestComponentAddress, ConsensusManagerMarker>, GenericGlobal<GlobalAddress, ConsensusManagerMarker>, GenericGlobal<ManifestComponentAddress, ValidatorMarker>, GenericGlobal<GlobalAddress, ValidatorMarker>, GenericGlobal<ManifestComponentAddress, AccountLockerMarker>, GenericGlobal<GlobalAddress, AccountLockerMarker>, GenericGlobal<ResourceAddress, AccountMarker>, GenericGlobal<PackageAddress, AccountMarker>, GenericGlobal<ManifestResourceAddress, AccountMarker>, GenericGlobal<ManifestPackageAddress, AccountMarker>, GenericGlobal<ManifestGlobalAddress, ValidatorMarker>,
     );
     v
 }
